@@ -132,6 +132,9 @@ theorem build_linear_partial : âˆ€ (v : PyVal), noCommentedDictValue v = true â†
   | .ellipsis, _ => by simp [pyCalls, vsize]
   | .str _ _ _, _ => by simp [pyCalls, vsize]
   | .opaque _, _ => by simp [pyCalls, vsize]
+  | .timedelta _ _ _, _ => by simp [pyCalls, vsize]
+  | .ident _, _ => by simp [pyCalls, vsize]
+  | .path _ _, _ => by simp [pyCalls, vsize]
 theorem buildL : âˆ€ (xs : List PyVal), ncdvL xs = true â†’ pyCallsL xs â‰¤ vsizeL xs
   | [], _ => by simp [pyCallsL, vsizeL]
   | v :: r, h => by
